@@ -69,6 +69,40 @@ fn graph_stats(d: &Decoded) -> (usize, usize) {
     (d.nodes.len() + sentinel_reachable as usize, classes.len())
 }
 
+/// several builders filled SIDE BY SIDE on one thread (keys handed out round-robin), with unrelated complete builds
+/// (Map::from_iter, a SetBuilder) happening in between: each of them must still share its own equivalent sub-automata
+fn judge_interleaved(kvs: &[Kv], ev: &mut Ev) {
+    build::stats_reset();
+    let res = guard(|| {
+        let mut bs: Vec<Builder<Vec<u8>>> = kvs.iter().map(|_| Builder::memory()).collect();
+        let longest = kvs.iter().map(|k| k.len()).max().unwrap_or(0);
+        for i in 0..longest {
+            for (j, kv) in kvs.iter().enumerate() {
+                if let Some((k, v)) = kv.get(i) {
+                    bs[j].insert(k, *v).unwrap();
+                }
+            }
+            if i % 5 == 2 {
+                let _ = fst::Map::from_iter(vec![("q", 1u64), ("qa", 2), ("r", 3)]);
+                let mut sb = fst::SetBuilder::memory();
+                let _ = sb.insert("side");
+                let _ = sb.into_inner();
+            }
+        }
+        bs.into_iter().map(|b| b.into_inner().unwrap()).collect::<Vec<Vec<u8>>>()
+    });
+    let st = build::stats();
+    match res {
+        Err(p) => ev.violate("build-panic", format!("interleaved builders: {}", p), J::Null),
+        Ok(all) => {
+            for (bytes, kv) in all.iter().zip(kvs.iter()) {
+                ev.count("builds:side-by-side-on-one-thread");
+                assess(kv, (10_000, 2), "one of several builders filled side by side on one thread", bytes, &st, ev);
+            }
+        }
+    }
+}
+
 fn judge(kv: &Kv, geom: (usize, usize), tag: &str, ev: &mut Ev) -> Option<(usize, usize, usize)> {
     build::stats_reset();
     let bytes = match guard(|| {
@@ -85,10 +119,15 @@ fn judge(kv: &Kv, geom: (usize, usize), tag: &str, ev: &mut Ev) -> Option<(usize
         }
     };
     let st = build::stats();
+    assess(kv, geom, tag, &bytes, &st, ev)
+}
+
+fn assess(kv: &Kv, geom: (usize, usize), tag: &str, bytes: &[u8], st: &build::Stats, ev: &mut Ev) -> Option<(usize, usize, usize)> {
+    let st = *st;
     ev.add("hook:cache-hits", st.hits);
     ev.add("hook:cache-misses", st.misses);
     ev.add("hook:cache-evictions", st.evictions);
-    let d = match refdec::decode(&bytes) {
+    let d = match refdec::decode(bytes) {
         Ok(d) => d,
         Err(e) => {
             ev.violate("undecodable", format!("independent decoder rejects the build: {}", e), J::Null);
@@ -165,6 +204,29 @@ pub fn run(ctx: &Ctx) -> i32 {
             if mask % 4099 == 1000 {
                 ev.sample(J::obj(vec![("keys", J::A(keys.iter().map(|k| J::bytes(k)).collect())), ("built_as", J::s("set (default geometry) and two maps (default + rotating geometry)"))]));
             }
+        }
+        // builders filled side by side on one thread
+        for g in 0..ctx.tier.pick(300, 3000) {
+            if g % n != shard {
+                continue;
+            }
+            let mut r = Rng::new(ctx.seed, 0x51de + g as u64);
+            let k = 2 + r.usize(2);
+            let kvs: Vec<Kv> = (0..k)
+                .map(|j| {
+                    let alpha = gen::alphabet(&mut r);
+                    let nk = 20 + r.usize(400);
+                    let keys = gen::random_keys(&mut r, nk, &alpha, 5);
+                    if j == 0 {
+                        keys.into_iter().map(|k| (k, 0)).collect()
+                    } else {
+                        gen::assign(keys, 1, &mut r)
+                    }
+                })
+                .collect();
+            ev.fps.insert(crate::rng::fnv_u64(0x51de, g as u64));
+            ev.eval(None);
+            judge_interleaved(&kvs, ev);
         }
         if !ctx.quick() {
             let u3 = gen::universe(b"abc", 2);
@@ -332,7 +394,7 @@ pub fn run(ctx: &Ctx) -> i32 {
             level: "exploration",
             rule: "one evaluation = one build whose emitted node graph (read by the independent decoder) is compared with harness-side oracles: (1) always: #reachable nodes <= #nodes of the keys' prefix trie; (2) when the cache counters (hook H2) show zero evictions and the cache has cells: no two reachable nodes have the same signature (final, final output, [(byte, output, class(child))]) and, for sets, #nodes == #states of the minimal acyclic DFA computed by bottom-up right-language classes on the trie; (3) corpora as sets: (trie - emitted)/(trie - minimal) > 0.5; builds: ALL 32768 subsets of {a,b}^<=3 as sets (default geometry) and as two maps each (rotating geometries 10000x2, 0x0, 1x1, 1x3, 7x2, 64x2), the same wide fan under several prefixes, tiny states reused by 60-180 wide nodes across files of hundreds of KB, common suffixes separated by runs of 100-3000 unique nodes, suffixes of 200-1200 bytes shared under different prefixes, equivalent wide nodes whose outputs exceed 2^33, random sets/maps to 3000 keys, thorough also all subsets of {a,b,c}^<=2; builds with evictions or without cache are counted and excluded from (2); non-trivial = every build; distinct = by fingerprint",
             assumptions: vec!["the premise 'no eviction' is taken from the cfg-guarded counters in registry.rs; a tree that replaces the cache implementation keeps them at 0, i.e. claims never to evict".into(), "'most of the achievable sharing' is read as a ratio > 0.5; measured ratios are recorded".into()],
-            floors: vec![("builds:premise-no-eviction-observed", 1000), ("builds:sets-compared-with-minimal-dfa", 1000), ("builds:excluded-from-minimality(evictions-or-no-cache)", 10), ("corpora-judged", 2), ("builds:duplicated-wide-subautomata", 60), ("builds:far-back-and-history-shapes", 9)],
+            floors: vec![("builds:premise-no-eviction-observed", 1000), ("builds:sets-compared-with-minimal-dfa", 1000), ("builds:excluded-from-minimality(evictions-or-no-cache)", 10), ("corpora-judged", 2), ("builds:duplicated-wide-subautomata", 60), ("builds:far-back-and-history-shapes", 9), ("builds:side-by-side-on-one-thread", 300)],
             exhaustive: Some(true),
         },
     )
